@@ -360,6 +360,8 @@ func (k Keeper) CloseBatchAuction(ctx context.Context, auction types.AuctionI) e
 			return err
 		}
 
+		ba.MatchedPrice = publishedMatchedPrice(mInfo)
+
 		if err := k.ApplyVestingSchedules(ctx, auction); err != nil {
 			return err
 		}
@@ -394,11 +396,22 @@ func (k Keeper) CloseBatchAuction(ctx context.Context, auction types.AuctionI) e
 		return err
 	}
 
+	ba.MatchedPrice = publishedMatchedPrice(mInfo)
+
 	if err := k.ApplyVestingSchedules(ctx, auction); err != nil {
 		return err
 	}
 
 	return nil
+}
+
+// publishedMatchedPrice returns the price to publish in BatchAuction.MatchedPrice when
+// the auction is settled: the matched price that was used, or zero if nothing was sold.
+func publishedMatchedPrice(mInfo MatchingInfo) math.LegacyDec {
+	if mInfo.MatchedPrice.IsNil() || !mInfo.TotalMatchedAmount.IsPositive() {
+		return math.LegacyZeroDec()
+	}
+	return mInfo.MatchedPrice
 }
 
 // CreateFixedPriceAuction handles types.MsgCreateFixedPriceAuction and create a fixed price auction.
